@@ -43,3 +43,137 @@ func vh_C06_L4_unordered_reassembly() {
 	vassert(r.getNumBytes() == 0, "queue drained")
 	vcover("end")
 }
+
+// C06.L3: transmission-count law. A single-chunk message on a stream with retransmission
+// limit N in {0,1,2,3} whose every transmission is lost: it is put on the wire at most
+// N+1 times, then abandoned and never sent again, the peer is told to skip it, and a
+// DCEP message on the same stream is never abandoned.
+func vh_C06_L3_transmission_count() {
+	il := vPick(2) == 1
+	a, _ := vPair(vAssocOpts{interleaving: il, pickTSN: true})
+	a.useForwardTSN, a.useIForwardTSN = !il, il
+	s, err := a.OpenStream(1, PayloadTypeWebRTCBinary)
+	vassert(err == nil, "open stream")
+	limit := uint32(vPick(4))
+	s.SetReliabilityParams(vPick(2) == 1, ReliabilityTypeRexmit, limit)
+	dcep := vPick(2) == 1
+	ppi := PayloadTypeWebRTCBinary
+	if dcep {
+		ppi = PayloadTypeWebRTCDCEP
+	}
+	_, werr := s.WriteSCTP(nondetBytes(2), ppi)
+	vassert(werr == nil, "write accepted")
+	first := a.myNextTSN
+	onWire := 0
+	fwd := false
+	for round := 0; round < 7; round++ {
+		for _, raw := range vWriterPass(a) { // every packet is lost
+			p := vDecode(raw)
+			for _, c := range p.chunks {
+				switch x := c.(type) {
+				case *chunkPayloadData:
+					if x.tsn == first {
+						onWire++
+						if dcep {
+							vassert(!x.unordered, "DCEP messages are sent ordered")
+						}
+					}
+				case *chunkForwardTSN, *chunkIForwardTSN:
+					fwd = true
+				}
+			}
+		}
+		vFireRtx(a, a.t3RTX)
+	}
+	if dcep {
+		vassert(onWire == 7 && !fwd, "a DCEP message is retransmitted for as long as needed and never abandoned")
+	} else {
+		vassert(onWire >= 1 && onWire <= int(limit)+1, "a chunk is put on the wire at most N+1 times under retransmission limit N")
+		vassert(fwd, "once the policy is exhausted the peer is told to skip the message")
+	}
+	vobserve("onWire", uint64(onWire))
+	vcover("end")
+}
+
+// C06.L2: abandoned or acknowledged chunks are never selected for retransmission by a
+// T3 expiry, whatever their counters say.
+func vh_C06_L2_abandoned_never_resent() {
+	f := vInFlight(3, false)
+	a := f.a
+	a.useForwardTSN = true
+	var wasAbandoned, wasAcked [3]bool
+	var sentBefore [3]uint32
+	for i, c := range f.chunks {
+		switch vPick(3) {
+		case 1:
+			c.setAbandoned(true)
+			c.setAllInflight()
+			wasAbandoned[i] = true
+		case 2:
+			a.inflightQueue.markAsAcked(c.tsn)
+			wasAcked[i] = true
+		}
+		c.nSent = 1 + uint32(vPick(2))
+		sentBefore[i] = c.nSent
+	}
+	a.t3RTX.start(1000)
+	vassert(vFireRtx(a, a.t3RTX), "T3 expires")
+	a.rwnd = nondetU32() // whatever the peer's window is
+	pkts := vWriterPass(a)
+	var resent [3]bool
+	for _, raw := range pkts {
+		p := vDecode(raw)
+		for _, c := range p.chunks {
+			if d, ok := c.(*chunkPayloadData); ok {
+				for i := range f.chunks {
+					if d.tsn == f.base+1+uint32(i) {
+						resent[i] = true
+					}
+				}
+			}
+		}
+	}
+	for i, c := range f.chunks {
+		if wasAbandoned[i] || wasAcked[i] {
+			vassert(!resent[i] && c.nSent == sentBefore[i], "an abandoned or acknowledged chunk is never put on the wire again")
+		}
+	}
+	if !wasAbandoned[0] && !wasAcked[0] {
+		vassert(resent[0], "the earliest outstanding chunk is retransmitted after T3 even with a zero peer window")
+	}
+	vassert(a.t3RTX.isRunning(), "T3 never gives up")
+	vcover("end")
+}
+
+// C06.L3b: the same law for a fragmented message only part of which fits the congestion
+// window: fragments already on the wire are not retransmitted beyond the limit while the
+// rest of the message is still waiting to be sent.
+func vh_C06_L3_fragmented_partly_in_flight() {
+	il := vPick(2) == 1
+	a, _ := vPair(vAssocOpts{interleaving: il, pickTSN: true, mtu: 36})
+	a.useForwardTSN, a.useIForwardTSN = !il, il
+	s, err := a.OpenStream(1, PayloadTypeWebRTCBinary)
+	vassert(err == nil, "open stream")
+	limit := uint32(vPick(2))
+	s.SetReliabilityParams(vPick(2) == 1, ReliabilityTypeRexmit, limit)
+	maxp := int(a.maxPayloadSize)
+	_, werr := s.WriteSCTP(make([]byte, 2*maxp+1), PayloadTypeWebRTCBinary) // three fragments
+	vassert(werr == nil, "write accepted")
+	a.cwnd = uint32(maxp) // one fragment at a time
+	first := a.myNextTSN
+	onWire := 0
+	for round := 0; round < 5; round++ {
+		for _, raw := range vWriterPass(a) { // every packet is lost
+			p := vDecode(raw)
+			for _, c := range p.chunks {
+				if x, ok := c.(*chunkPayloadData); ok && x.tsn == first {
+					onWire++
+				}
+			}
+		}
+		vFireRtx(a, a.t3RTX)
+	}
+	vassert(onWire <= int(limit)+1, "the first fragment is put on the wire at most N+1 times even while later fragments are still pending")
+	vobserve("onWire", uint64(onWire))
+	vcover("end")
+}
